@@ -42,6 +42,12 @@ def cases(tier, seed):
                 continue
             yield {'stratum': 'aspect-pairs', 'index': i, 'kind': 'aspects', 'aspects': [a, b], 'pattern': 'plain'}
             i += 1
+    # every non-standard enumerated value of the catalogue once, on its own
+    for a, vals in (('equipment-type', ['Gizmo', 'tool', 'TOOL', 'Pane']), ('equipment-location', ['Moon', 'well', 'WELL']),
+                    ('index-type', ['MY-INDEX', 'DEPTH', 'borehole-depth'])):
+        for v in vals:
+            yield {'stratum': 'enumerated-non-members', 'index': i, 'kind': 'aspects', 'aspects': [a], 'pattern': 'plain', 'force': v}
+            i += 1
     for p in PATTERNS:
         for k in range(3 if tier == 'quick' else 30):
             yield {'stratum': 'patterns', 'index': i, 'kind': 'aspects', 'aspects': [], 'pattern': p}
@@ -124,7 +130,7 @@ def breach(sp, a, r):
     elif a == 'index-type':
         ops[fr[0]]['attrs']['index_type'] = r.choice(['MY-INDEX', 'DEPTH', 'borehole-depth'])
     elif a == 'equipment-type':
-        next(o for o in ops if o['op'] == 'equipment')['attrs']['eq_type'] = r.choice(['Gizmo', 'tool', 'TOOL'])
+        next(o for o in ops if o['op'] == 'equipment')['attrs']['eq_type'] = r.choice(['Gizmo', 'tool', 'TOOL', 'Pane'])   # ('Pane': RP66 has 'Panel')
     elif a == 'equipment-location':
         next(o for o in ops if o['op'] == 'equipment')['attrs']['location'] = r.choice(['Moon', 'well', 'WELL'])
     elif a == 'renamed-after-creation':
@@ -142,7 +148,7 @@ def breach(sp, a, r):
         o['attrs'][kw] = r.choice(['lower', 'With Space', 'dot.ted'])
 
 
-NONSTD = {'units': set(gen.NONSTD_UNITS), 'index': {'MY-INDEX', 'DEPTH', 'borehole-depth'}, 'eqtype': {'Gizmo', 'tool', 'TOOL'},
+NONSTD = {'units': set(gen.NONSTD_UNITS), 'index': {'MY-INDEX', 'DEPTH', 'borehole-depth'}, 'eqtype': {'Gizmo', 'tool', 'TOOL', 'Pane'},
           'eqloc': {'Moon', 'well', 'WELL'}}
 
 
@@ -275,6 +281,9 @@ def run_case(case):
         aspects, pattern = list(case['aspects']), case['pattern']
     for a in aspects:
         breach(sp, a, r)
+        if case.get('force') is not None:
+            o_ = next(o for o in sp['ops'] if o['op'] == ('frame' if a == 'index-type' else 'equipment'))
+            o_['attrs'][{'equipment-type': 'eq_type', 'equipment-location': 'location', 'index-type': 'index_type'}[a]] = case['force']
         bump('breach-' + a)
     bump('pattern-' + pattern)
 
